@@ -4,7 +4,8 @@ CONSTANTS
   Clients = {"c1"}
   MaxReq = 2
   Endpoints = {"pause", "continue", "state", "now", "tick", "component", "field", "buffers", "progress"}
-  PauseWaits = FALSE
+  PauseWaits = TRUE
+  HoldCtl = TRUE
   Atomic = TRUE
   Record = TRUE
 INVARIANT EmitInv
